@@ -180,6 +180,9 @@ struct Scenario {
     bridge: u8,
     legacy: bool,
     derive_app: bool,
+    /// requests and streams of script tasks are polled through the foreign-waker adapter
+    /// (cmdlab::probe): every waker registration and wake-up is a schedule point
+    probe: bool,
     program: Cmd,
     prefix: Vec<Action>,
     ops: Vec<ConcOp>,
@@ -371,6 +374,7 @@ fn gen_abort_race(rng: &mut Rng, n_ops: usize) -> (Scenario, Model, Expected) {
         bridge: 0,
         legacy: false,
         derive_app,
+        probe: rng.chance(1, 3),
         program,
         prefix,
         ops,
@@ -385,6 +389,82 @@ fn gen_abort_race(rng: &mut Rng, n_ops: usize) -> (Scenario, Model, Expected) {
     (scn, model, exp)
 }
 
+/// One live subscription made through the *capability* API, its items delivered by several
+/// threads at once over a bridge (ids, unlike typed request objects, can be shared between
+/// threads). The items carry the same value, so every order of the deliveries is the same
+/// sequential history: each delivery hands the consumer one item, which it reports with its
+/// next event. An item left in the channel without a wake-up shows as a lost event.
+fn gen_legacy_stream(rng: &mut Rng, n_ops: usize) -> Option<(Scenario, Model, Expected)> {
+    let bridge = rng.range(1, 2) as u8;
+    let n_streams = rng.range(1, 2) as u32;
+    let mut instrs = vec![];
+    for s in 0..n_streams {
+        instrs.push(Instr::Open { site: 1 + s });
+    }
+    let rounds = n_ops as u32 + rng.range(1, 3) as u32;
+    let mut reg = 0usize;
+    for i in 0..rounds {
+        for s in 0..n_streams {
+            instrs.push(Instr::Next { stream: s as usize });
+            instrs.push(Instr::Emit { tag: 10 + 10 * s + i, reg: Some(reg) });
+            reg += 1;
+            if rng.chance(1, 6) {
+                instrs.push(Instr::Notify { site: 300 + 10 * s + i });
+            }
+        }
+    }
+    instrs.push(Instr::Req { site: 50, arg: None });
+    let mut program = Cmd::Async(Script { instrs });
+    if rng.chance(1, 3) {
+        let sibling = Cmd::Async(Script {
+            instrs: vec![Instr::Req { site: 70, arg: None }, Instr::Emit { tag: 7000, reg: Some(0) }],
+        });
+        program = Cmd::And(Box::new(program), Box::new(sibling));
+    }
+    let mut model = Model::new(Mode::LEGACY);
+    model.start(&program);
+    // the same value everywhere: the order in which the deliveries land is not observable
+    let val = 777u64;
+    let mut prefix = vec![];
+    // (a subscription is requested when the consumer first waits for it)
+    let open_streams = |m: &Model| -> Vec<u32> {
+        let mut v: Vec<u32> = m.outstanding().into_iter().filter(|o| o.kind == KIND_MANY && o.receiver_alive).map(|o| o.key.0).collect();
+        v.sort();
+        v
+    };
+    for _ in 0..rng.below(3) {
+        for site in open_streams(&model) {
+            let a = Action::Resolve { site, arg: 0, val };
+            model.act(&a);
+            prefix.push(a);
+        }
+    }
+    let sites = open_streams(&model);
+    if sites.is_empty() {
+        return None;
+    }
+    let mut ops: Vec<ConcOp> = vec![];
+    for i in 0..n_ops {
+        let site = sites[i % sites.len()];
+        if i >= 2 && rng.chance(1, 3) {
+            ops.push(if rng.chance(1, 2) { ConcOp::View } else { ConcOp::Act(Action::Noop) });
+        } else {
+            ops.push(ConcOp::Act(Action::Resolve { site, arg: 0, val }));
+        }
+    }
+    let exp = commuting_expectation(&model, &ops)?;
+    let scn = Scenario {
+        bridge,
+        legacy: true,
+        derive_app: true,
+        probe: rng.chance(2, 3),
+        program,
+        prefix,
+        ops,
+    };
+    Some((scn, model, exp))
+}
+
 /// `--families events`: only the scenario families about event delivery (bursts of events and
 /// abort races), used by the C03 lane
 static EVENTS_ONLY: std::sync::atomic::AtomicBool = std::sync::atomic::AtomicBool::new(false);
@@ -393,6 +473,9 @@ fn gen_scenario(rng: &mut Rng, thorough: bool, n_ops: usize) -> Option<(Scenario
     let events_only = EVENTS_ONLY.load(Ordering::Relaxed);
     if rng.chance(1, if events_only { 3 } else { 7 }) {
         return Some(gen_abort_race(rng, n_ops));
+    }
+    if !events_only && rng.chance(1, 9) {
+        return gen_legacy_stream(rng, n_ops);
     }
     let bridge: u8 = if rng.chance(1, 4) { rng.range(1, 2) as u8 } else { 0 };
     let legacy = bridge == 0 && rng.chance(1, 4);
@@ -584,6 +667,7 @@ fn gen_scenario(rng: &mut Rng, thorough: bool, n_ops: usize) -> Option<(Scenario
                 bridge,
                 legacy,
                 derive_app,
+                probe: rng.chance(1, 2),
                 program,
                 prefix,
                 ops,
@@ -1302,7 +1386,8 @@ where
     let mut findings: Vec<(String, String, Value)> = vec![];
     let wire = if scn.bridge == 1 { Wire::Bincode } else { Wire::Json };
     let mut host = BridgeHost::<A>::new(wire);
-    let mut m = Model::new(Mode::CORE);
+    host.legacy = scn.legacy;
+    let mut m = Model::new(if scn.legacy { Mode::LEGACY } else { Mode::CORE });
     let p = m.start(&scn.program);
     let o = host.start(&scn.program);
     for f in compare(&p, &o, &host.caps(), "Bridge(sequential prefix)", 0) {
@@ -1596,6 +1681,7 @@ where
 }
 
 fn run_any(scn: &Scenario, model: &Model, exp: &Expected, schedule: Schedule, rng: &mut Rng) -> RunResult {
+    cmdlab::probe::PROBE_ON.store(scn.probe, Ordering::SeqCst);
     if scn.bridge != 0 {
         return if scn.derive_app {
             run_bridge_scenario::<AppD>(scn, model, exp, schedule, rng)
@@ -1624,6 +1710,8 @@ fn main() {
         assert!(crux_core::verif::set_controller(on_point));
         // a schedule point inside response decoding (under the registry lock on the bridge)
         let _ = cmdlab::ops::DESERIALIZE_HOOK.set(|| on_point("harness.deserialize_response"));
+        // ... and wherever a request / stream future of a script task registers or wakes a waker
+        let _ = cmdlab::probe::WAKER_HOOK.set(on_point);
     }
     let thorough = args.thorough();
     let seed = args.worker_seed();
@@ -1667,6 +1755,12 @@ fn main() {
             }
             if shared {
                 report.lock().unwrap().count("scenarios_answering_one_stream_id_from_two_threads", 1);
+            }
+            if shared && scn.legacy {
+                report.lock().unwrap().count("scenarios_answering_one_capability_api_subscription_from_two_threads", 1);
+            }
+            if scn.probe {
+                report.lock().unwrap().count("scenarios_with_foreign_wakers", 1);
             }
         }
         let record = |r: &mut Report, res: &RunResult, schedule: &str, extra: Value| {
@@ -1797,5 +1891,6 @@ fn main() {
     flush_local_hits(&mut r);
     // the number of distinct interleavings (hash of the global order of hook hits)
     r.count("distinct_interleaving_traces", traces.len() as u64);
+    r.count("wakeups_through_a_stale_waker_ignored_by_the_adapter", cmdlab::probe::STALE_WAKES_IGNORED.load(Ordering::Relaxed));
     r.finish(&args);
 }
